@@ -87,6 +87,11 @@ CHECKS = {
   "Worlds with 1-4 genuine address changes (port-only / whole address, with and without local_address_changed) during bidirectional transfers under loss and CID rotation (plaintext and rustls lanes): transfers complete, nothing is lost, the server only ever sends to addresses the client really used and ends at its final one, each new path respects the 3x limit. Worlds where an attacker replays genuine client datagrams from third addresses, racing or trailing the original: transmits to such an address stay within 3 PTO of the last replay and within 3x the replayed bytes (plus the documented one-datagram allowance per visit), remote_address() ends genuine, the transfer completes. Clients and servers with migration disabled never send a single datagram elsewhere.",
   "PTO taken as the maximum reported through the probe; pad_to_mtu / BBR / tiny fixed windows excluded (their findings live under C02 / C12); cumulative amplification across repeated visits to the same spoofed address is the finding recorded under C07",
   "DESIGN.md section 4 C15"),
+ "C17": ("fault_enumeration",
+  "runtime monitoring: application-boundary ledger (exactly-once, byte-exact, epoch-keyed payloads) + state oracles evaluated at the instant the client learns of a rejection, over enumerated loss of the early flight and random faults, plaintext and rustls lanes",
+  "Two connections per world (ticket, then early writes of streams of both directions, finishes, resets and datagrams); server accepting or refusing early data, directly / after Retry / late (buffered early packets), with equal, larger or (when refusing) smaller new transport parameters. Every subset of the client's first 6 (quick) / 9 (thorough) datagrams is dropped in several configurations, plus random drop/dup/reorder worlds. Accepted early data is delivered exactly once and byte-exact; on rejection the server application holds nothing of the attempt, early streams answer ClosedStream, numbering / accounting / limits restart from the new values, and late leaks are caught because post-rejection data is keyed differently.",
+  "rustls acceptance policy is not judged (refusals by a willing server only counted); C05's wire ledger is off in worlds where the refusing server's new limits are below the remembered ones",
+  "DESIGN.md section 4 C17"),
  "C10": ("exploration",
   "runtime monitoring: round-trip and totality oracles over quinn's real codecs (hooks H3) against an independent wire codec, with exhaustive sub-spaces; the same sweeps repeated under AddressSanitizer and Miri",
   "encode->decode->compare for varints (all 2^30 four-byte values, all 1/2-byte values), packet numbers (window sweeps around 2^7/2^15/2^23/2^31), every frame type with boundary-valued fields, headers (type x CID length x pn length x token length), transport parameters, tokens and reset tokens; decoders fed arbitrary and mutated bytes must return an error or a value that re-encodes consistently, never panic, never read out of bounds (ASan, Miri lanes). Held on 5.6e7 inputs quick / 5.5e9 thorough.",
